@@ -3,7 +3,10 @@ package core
 import (
 	"encoding/json"
 	"fmt"
+	"os"
 	"sort"
+	"strings"
+	"sync"
 )
 
 // Tier is the check depth.
@@ -206,4 +209,42 @@ type Property struct {
 	// Real / Stub components, for the evidence file.
 	Real, Stub  []string
 	Assumptions []string
+}
+
+// LogRing keeps the most recent error-level log lines of the code under test (the harness
+// routes the repository's logger here), so that oracles can attribute a rejected proposal or a
+// fatal error to its logged cause.
+type logRing struct {
+	mu    sync.Mutex
+	lines []string
+}
+
+// Logs is the process-wide ring of recent log lines.
+var Logs = &logRing{}
+
+func (l *logRing) Write(p []byte) (int, error) {
+	l.mu.Lock()
+	l.lines = append(l.lines, string(p))
+	if len(l.lines) > 40 {
+		l.lines = l.lines[len(l.lines)-40:]
+	}
+	l.mu.Unlock()
+	if os.Getenv("VERIF_DEBUG") != "" {
+		_, _ = os.Stderr.Write(p)
+	}
+	return len(p), nil
+}
+
+// Recent returns the recent log lines joined.
+func (l *logRing) Recent() string {
+	l.mu.Lock()
+	defer l.mu.Unlock()
+	return strings.Join(l.lines, "")
+}
+
+// Reset clears the ring.
+func (l *logRing) Reset() {
+	l.mu.Lock()
+	l.lines = nil
+	l.mu.Unlock()
 }
